@@ -450,3 +450,7 @@ def s4_stable_dep(I):
 # ---------------------------------------------------------------- multi-hop minimum_receive (clause shared with C04's routed-swap obligations)
 from . import c04 as _c04   # noqa: E402
 share('C04', 'C13', 'H', lambda n: n in ('R1.route_hops_AB_BC', 'R1.route_hops_AB_BA_AB', 'R2.minimum_receive_boundary_AB_BC', 'R2.minimum_receive_boundary_AB_BA'))
+
+# ---------------------------------------------------------------- the deposit tolerance of a SINGLE-ASSET deposit (clause shared with C14's relational obligations)
+from . import c14 as _c14   # noqa: E402
+share('C14', 'C13', 'D', lambda n: n.startswith('R1.') and 'with_liquidity_tolerance' in n)
